@@ -368,28 +368,40 @@ class TravFault(Leg):
                 w.do(op)
             snap = w.snapshot()
             Vertex.NEIGHBOR_CACHING = case["caching"]
-            answers, changed = [], None
+            answers, changed, stale = [], None, None
             for qi, q in enumerate(case["queries"]):
                 armed, f = q[1], q[-1]
                 cb = filt_switch(w, f)
                 if cb is not None:
                     cb.armed = armed
-                try:
-                    if q[0] == "NB":
-                        r = helpers.neighbors(w.get(q[2], H.VERTEX_KINDS), direction_sensitive=Q.DIRC[q[3]], unknown_handling=Q.UNKC[q[4]],
-                                              filterfunc=cb)
-                    else:
-                        uni = w.get(q[3], ["KUniverse"]) if q[3] is not None else None
-                        r = self.KIND[q[2]](uni, w.get(q[4], H.VERTEX_KINDS), direction_sensitive=Q.DIRC[q[5]],
-                                            unknown_handling=Q.UNKC[q[6]], ff_via=cb)
-                    answers.append(["list", [w.id_of(x) for x in r]])
-                except Boom:
-                    answers.append(["boom"])
-                except Exception as e:  # noqa: BLE001
-                    answers.append(["raise", type(e).__name__])
+                def call():
+                    try:
+                        if q[0] == "NB":
+                            r = helpers.neighbors(w.get(q[2], H.VERTEX_KINDS), direction_sensitive=Q.DIRC[q[3]],
+                                                  unknown_handling=Q.UNKC[q[4]], filterfunc=cb)
+                        else:
+                            uni = w.get(q[3], ["KUniverse"]) if q[3] is not None else None
+                            r = self.KIND[q[2]](uni, w.get(q[4], H.VERTEX_KINDS), direction_sensitive=Q.DIRC[q[5]],
+                                                unknown_handling=Q.UNKC[q[6]], ff_via=cb)
+                        return ["list", [w.id_of(x) for x in r]]
+                    except Boom:
+                        return ["boom"]
+                    except Exception as e:  # noqa: BLE001
+                        return ["raise", type(e).__name__]
+                answers.append(call())
+                if not armed and stale is None:
+                    # "repeating the call with a well-behaved callback gives the normal answer": the same call with the memo
+                    # out of the way (flag off: nothing read, nothing written)
+                    Vertex.NEIGHBOR_CACHING = False
+                    try:
+                        truth = call()
+                    finally:
+                        Vertex.NEIGHBOR_CACHING = case["caching"]
+                    if truth != answers[-1]:
+                        stale = [qi, truth]
                 if changed is None and w.snapshot() != snap:
                     changed = qi
-            return {"snap": snap, "answers": answers, "changed": changed}
+            return {"snap": snap, "answers": answers, "changed": changed, "stale": stale}
         except H.CaseInvalid:
             return None
         finally:
@@ -397,10 +409,17 @@ class TravFault(Leg):
             w.close()
 
     def oracle(self, case, obs):
-        if obs is None or obs["changed"] is None:
+        if obs is None:
             return []
-        q = case["queries"][obs["changed"]]
-        return [f"call {obs['changed']} ({q}) ended with {obs['answers'][obs['changed']]} and changed the graph"]
+        m = []
+        if obs["changed"] is not None:
+            q = case["queries"][obs["changed"]]
+            m.append(f"call {obs['changed']} ({q}) ended with {obs['answers'][obs['changed']]} and changed the graph")
+        if obs.get("stale"):
+            qi, truth = obs["stale"]
+            m.append(f"call {qi} ({case['queries'][qi]}, callback behaving) answered {obs['answers'][qi]} after the earlier calls "
+                     f"{case['queries'][:qi]}; the normal answer (memo out of the way) is {truth}")
+        return m
 
     def term(self, case, obs):
         if obs is None:
